@@ -68,10 +68,12 @@ type FS struct {
 	Uid   int // caller identity
 	Gid   int
 	Clock int
+	// ProtectedHardlinks mirrors /proc/sys/fs/protected_hardlinks (1 on this kernel and by default).
+	ProtectedHardlinks bool
 }
 
 func New() *FS {
-	f := &FS{Umask: 0o022}
+	f := &FS{Umask: 0o022, ProtectedHardlinks: true}
 	f.Nodes = append(f.Nodes, &Inode{Kind: KDir, Mode: 0o755, Nlink: 2, Parent: 0})
 	return f
 }
@@ -628,11 +630,14 @@ func (f *FS) Rename(oldp, newp string) int {
 	if n.Err == OK && n.Ino == o.Ino {
 		return OK // same inode: nothing happens
 	}
-	if !f.Permit(o.Parent, MayW|MayX) || !f.Permit(n.Parent, MayW|MayX) {
+	if !f.Permit(o.Parent, MayW|MayX) {
 		return EACCES
 	}
 	if !f.stickyOK(o.Parent, o.Ino) {
 		return EPERM
+	}
+	if !f.Permit(n.Parent, MayW|MayX) {
+		return EACCES
 	}
 	if on.Kind == KDir {
 		if f.isAncestor(o.Ino, n.Parent) {
@@ -692,6 +697,12 @@ func (f *FS) Link(oldp, newp string) int {
 	_, ntrail := split(newp)
 	if ntrail {
 		return ENOENT
+	}
+	// fs.protected_hardlinks=1 (may_linkat): a non-owner needs read and write access to a regular source
+	if f.ProtectedHardlinks && f.Uid != 0 && on.Uid != f.Uid {
+		if on.Kind != KFile || on.Mode&0o4000 != 0 || on.Mode&0o2010 == 0o2010 || !f.Permit(o.Ino, MayR|MayW) {
+			return EPERM
+		}
 	}
 	if !f.Permit(n.Parent, MayW|MayX) {
 		return EACCES
@@ -778,16 +789,17 @@ func (f *FS) Chmod(p string, mode uint32) int {
 func (f *FS) chown(ino int, uid, gid int) int {
 	n := f.Nodes[ino]
 	if f.Uid != 0 {
-		// the owner may change the group to a group it belongs to; nothing else
-		if uid != -1 && uid != n.Uid {
+		// chown_ok: the owner may "change" the uid to the value it already has;
+		// chgrp_ok: the owner may change the group to the file's group or to its own group
+		if uid != -1 && !(f.Uid == n.Uid && uid == n.Uid) {
 			return EPERM
 		}
-		if f.Uid != n.Uid {
+		if gid != -1 && !(f.Uid == n.Uid && (gid == n.Gid || gid == f.Gid)) {
 			return EPERM
 		}
-		if gid != -1 && gid != f.Gid {
-			return EPERM
-		}
+	}
+	if uid == -1 && gid == -1 {
+		return OK
 	}
 	if uid != -1 {
 		n.Uid = uid
@@ -795,13 +807,11 @@ func (f *FS) chown(ino int, uid, gid int) int {
 	if gid != -1 {
 		n.Gid = gid
 	}
-	if n.Kind == KFile && (uid != -1 || gid != -1) {
-		// chown clears setuid/setgid on executable regular files (root: only when the file is executable for setgid)
-		if f.Uid != 0 || true {
-			n.Mode &^= 0o4000
-			if n.Mode&0o010 != 0 {
-				n.Mode &^= 0o2000
-			}
+	if n.Kind == KFile {
+		// chown clears setuid, and setgid when the file is group-executable
+		n.Mode &^= 0o4000
+		if n.Mode&0o010 != 0 {
+			n.Mode &^= 0o2000
 		}
 	}
 	return OK
